@@ -20,7 +20,8 @@ ANCHORS = ['pycaption.scc:SCCWriter.write', 'pycaption.scc:SCCWriter._layout_lin
 THOROUGH_SCALE = 2        # random budgets of the thorough tier are multiplied by this
 REQUIRE = {'sets_written': 100, 'captions_read_back': 200, 'just_feasible_spacings': 30, 'long_words': 30,
            'wrapped_lines': 50, 'bytes_parity_checked': 5000, 'rows_decoded': 300, 'four_or_more_rows': 20,
-           'edm_line_inside_next_load_window': 5, 'captions_filling_all_15_rows': 10}
+           'edm_line_inside_next_load_window': 5, 'captions_filling_all_15_rows': 10,
+           'lines_stored_as_several_text_nodes': 100}
 
 CW = Fraction(1001000, 30)
 ALLOWED = ''.join(ch for code, ch in sorted(E.BASIC.items()) if code != 0x7f and ch != ' ')
@@ -113,7 +114,7 @@ def gen_case(rng, tag):
             start = (W + rng.choice([0, 1, 2, 30, 900, 107000, 108000, 220000, 2500000])) * CW
             if rng.random() < 0.2:
                 # shortly after a full hour of real time (the non-drop timecode is still in the hour before)
-                start = rng.choice([1, 2, 5, 23]) * 3600 * 10 ** 6 + rng.choice([100000, 1500000, 3000000, 3590000, 3700000]) + W * CW
+                start = rng.choice([1, 2, 5, 23, 24, 30, 99]) * 3600 * 10 ** 6 + rng.choice([100000, 1500000, 3000000, 3590000, 3700000]) + W * CW
             elif rng.random() < 0.2:
                 # shortly after a full minute of timecode: a long caption's load line begins in the minute before
                 start = rng.choice([1, 2, 10, 59, 61]) * 1800 * CW + rng.choice([3, 10, 30, 60, 90, 100]) * CW
@@ -122,7 +123,11 @@ def gen_case(rng, tag):
             start = t + (W + slack) * CW
         start = int(start) + 1
         dur = rng.choice([1000000, 1500000, 2500000, 4000000])
-        out.append({'start': start, 'end': start + dur, 'lines': lines})
+        cap = {'start': start, 'end': start + dur, 'lines': lines}
+        if rng.random() < 0.2:
+            cap['cuts'] = {str(k): sorted({rng.randrange(1, max(2, len(ln))) for _ in range(rng.choice([1, 2]))})
+                           for k, ln in enumerate(lines) if len(ln) >= 2 and rng.random() < 0.7}
+        out.append(cap)
         t = Fraction(start)
     # ends may not pass the next start
     for a, b in zip(out, out[1:]):
@@ -176,7 +181,14 @@ def check(case, ctx):
         for k, ln in enumerate(c['lines']):
             if k:
                 nodes.append(['b'])
-            nodes.append(['t', ln])
+            cuts = [x for x in c.get('cuts', {}).get(str(k), []) if 0 < x < len(ln)]
+            if cuts:
+                # one line stored as several adjacent text nodes (the cut may fall inside a word)
+                ctx.count('lines_stored_as_several_text_nodes')
+                for a, b in zip([0] + cuts, cuts + [len(ln)]):
+                    nodes.append(['t', ln[a:b]])
+            else:
+                nodes.append(['t', ln])
         spec['langs'][0]['captions'].append({'start': c['start'], 'end': c['end'], 'nodes': nodes,
                                              'style': None, 'layout': None})
     ctx.count('sets_written')
